@@ -61,7 +61,7 @@ class C04(Prop):
     rule = ("exhaustive: all sets of <= 3 orders over 3 alternatives; random profiles m<=6 against brute force "
             "(n<=6); planted single-crossing walks and one-swap perturbations up to m=12, n=16 with shuffled storage, "
             "n<m and n>=m in equal shares; non-trivial = >= 3 orders")
-    budget = {"quick": 300, "thorough": 10000}
+    budget = {"quick": 800, "thorough": 10000}
     anchors = [("preflibtools.properties.subdomains.ordinal.singlecrossing", n) for n in
                ("is_single_crossing", "_is_ordered_profile_single_crossing", "is_single_crossing_conflict_sets")] + \
               [("preflibtools.properties.distances", "kendall_tau_distance")]
@@ -76,6 +76,10 @@ class C04(Prop):
             for sub in itertools.combinations(ps, k):
                 yield {"kind": "profile", "alts": [1, 2, 3], "orders": [list(o) for o in sub], "planted": None}
         for i in range(n):
+            for c in self._random_case(rng, i):
+                yield gen.strict_case_extras(rng, c)
+
+    def _random_case(self, rng, i):
             r = rng.random()
             if r < 0.45:
                 m = rng.randint(2, 5)
@@ -86,7 +90,7 @@ class C04(Prop):
                 if rng.random() < 0.5:
                     yield {"kind": "profile", "alts": alts, "store": gen.perm(rng, alts),
                            "orders": [list(o) for o in orders], "planted": None}
-                    continue
+                    return
             else:
                 m = rng.choice([3, 4, 5, 6, 8, 12])
                 alts = gen.alt_ids(rng, m, zero_ok=True)
@@ -113,8 +117,8 @@ class C04(Prop):
 
     def run_impl(self, case):
         from preflibtools.properties.subdomains.ordinal import singlecrossing as SC
-        prof = [(tuple((a,) for a in o), 1) for o in case["orders"]]
-        inst = gen.make_ordinal(prof, alts=case.get("store", case["alts"]), data_type="soc")
+        inst = gen.strict_case_instance(case, SC.is_single_crossing, alts=case.get("store", case["alts"]))
+        self.count("built:" + ("grown" if case.get("grow") else "direct") + ("+mult" if case.get("mults") else ""))
         n, m = len(case["orders"]), len(case["alts"])
         self.count("branch:" + ("n<m" if n < m else "n>=m"))
         r = call(SC.is_single_crossing, inst)
@@ -170,14 +174,22 @@ class C04(Prop):
 
     def shrink_candidates(self, case):
         os_ = case["orders"]
+        yield from gen.strict_case_shrinks(case)
+        ms = case.get("mults")
         for i in range(len(os_)):
             if len(os_) > 1:
-                yield dict(case, orders=os_[:i] + os_[i + 1:], planted=None)
+                c2 = dict(case, orders=os_[:i] + os_[i + 1:], planted=None)
+                if ms:
+                    c2["mults"] = ms[:i] + ms[i + 1:]
+                yield c2
         if len(case["alts"]) > 2:
             for x in case["alts"]:
                 o2 = [[a for a in o if a != x] for o in os_]
                 if len({tuple(o) for o in o2}) == len(o2):
-                    yield dict(case, alts=[a for a in case["alts"] if a != x], orders=o2, planted=None)
+                    c2 = dict(case, alts=[a for a in case["alts"] if a != x], orders=o2, planted=None)
+                    if "store" in case:
+                        c2["store"] = [a for a in case["store"] if a != x]
+                    yield c2
 
 
 PROP = C04
